@@ -1088,8 +1088,10 @@ def normalise_reduce(tree):
         return 0
     n = 0
     counter = [0]
+    used_stores = {}
     for fn in [f for f in ast.walk(tree) if isinstance(f, (ast.FunctionDef, ast.AsyncFunctionDef))]:
         used = {x.id for x in ast.walk(fn) if isinstance(x, ast.Name)} | {a.arg for a in fn.args.posonlyargs + fn.args.args + fn.args.kwonlyargs}
+        used_stores[id(fn)] = {x.id for x in ast.walk(fn) if isinstance(x, ast.Name) and isinstance(x.ctx, (ast.Store, ast.Del))} | {a.arg for a in fn.args.posonlyargs + fn.args.args + fn.args.kwonlyargs}
         for node in ast.walk(fn):
             for field in ("body", "orelse", "finalbody"):
                 stmts = getattr(node, field, None)
@@ -1103,12 +1105,23 @@ def normalise_reduce(tree):
                     else:
                         continue
                     c = st.value
-                    if not (isinstance(c, ast.Call) and not c.keywords and len(c.args) == 3 and isinstance(c.args[0], ast.Lambda)):
+                    if not (isinstance(c, ast.Call) and not c.keywords and len(c.args) == 3):
                         continue
                     f = c.func
                     if not ((isinstance(f, ast.Name) and f.id in names) or (isinstance(f, ast.Attribute) and f.attr == "reduce" and isinstance(f.value, ast.Name) and f.value.id in mods)):
                         continue
                     lam = c.args[0]
+                    if isinstance(lam, ast.Name) and lam.id not in used_stores.get(id(fn), set()):
+                        # a module-level step function `def step(acc, x): return E` is the lambda acc, x: E
+                        d_ = [d for d in tree.body if isinstance(d, ast.FunctionDef) and d.name == lam.id]
+                        body_ = [b for b in d_[0].body if not (isinstance(b, ast.Expr) and isinstance(b.value, ast.Constant))] if len(d_) == 1 else []
+                        if len(body_) == 1 and isinstance(body_[0], ast.Return) and body_[0].value is not None and not d_[0].decorator_list:
+                            la_ = _clone(d_[0].args)
+                            for a_ in la_.posonlyargs + la_.args + la_.kwonlyargs:
+                                a_.annotation = None
+                            lam = ast.Lambda(args=la_, body=_clone(body_[0].value))
+                    if not isinstance(lam, ast.Lambda):
+                        continue
                     a = lam.args
                     if len(a.args) != 2 or a.vararg or a.kwarg or a.kwonlyargs or a.defaults or a.posonlyargs:
                         continue
@@ -2059,6 +2072,226 @@ def normalise_comp_ifexp(tree):
     return n
 
 
+def normalise_match(tree):
+    """`match S:` whose cases are value patterns (dotted names), literals, `Cls()` class patterns without sub-patterns, `|` of those, and
+    a final wildcard - no guards, no captures - is the if / elif ladder `S == V` / `S is None` / `isinstance(S, Cls)` in the same
+    order (that is how those patterns are defined to match); a subject that is not a plain name is evaluated once into a temporary"""
+    n = [0]
+    counter = [0]
+
+    def test_of(pat, subj):
+        if isinstance(pat, ast.MatchValue):
+            v = pat.value
+            base = v
+            while isinstance(base, ast.Attribute):
+                base = base.value
+            if isinstance(v, ast.Constant) or (isinstance(v, ast.Attribute) and isinstance(base, ast.Name)) or (isinstance(v, ast.UnaryOp) and isinstance(v.operand, ast.Constant)):
+                return ast.Compare(left=_clone(subj), ops=[ast.Eq()], comparators=[_clone(v)])
+            return None
+        if isinstance(pat, ast.MatchSingleton):
+            return ast.Compare(left=_clone(subj), ops=[ast.Is()], comparators=[ast.Constant(value=pat.value)])
+        if isinstance(pat, ast.MatchClass) and not pat.patterns and not pat.kwd_patterns and isinstance(pat.cls, (ast.Name, ast.Attribute)):
+            return ast.Call(func=ast.Name(id="isinstance", ctx=ast.Load()), args=[_clone(subj), _clone(pat.cls)], keywords=[])
+        if isinstance(pat, ast.MatchOr):
+            ts = [test_of(q, subj) for q in pat.patterns]
+            if any(t is None for t in ts):
+                return None
+            return ast.BoolOp(op=ast.Or(), values=ts)
+        return None
+
+    def convert(st):
+        subj = st.subject
+        pre = []
+        if not isinstance(subj, ast.Name):
+            base = subj
+            while isinstance(base, ast.Attribute):
+                base = base.value
+            if not (isinstance(subj, ast.Attribute) and isinstance(base, ast.Name)):
+                counter[0] += 1
+                tmp = f"_match{counter[0]}"
+                pre = [ast.Assign(targets=[ast.Name(id=tmp, ctx=ast.Store())], value=subj)]
+                subj = ast.Name(id=tmp, ctx=ast.Load())
+        chain = None
+        cases = list(st.cases)
+        tail = []
+        if cases and isinstance(cases[-1].pattern, ast.MatchAs) and cases[-1].pattern.pattern is None and cases[-1].pattern.name is None and cases[-1].guard is None:
+            tail = cases[-1].body
+            cases = cases[:-1]
+        tests = []
+        for c in cases:
+            if c.guard is not None:
+                return None
+            t = test_of(c.pattern, subj)
+            if t is None:
+                return None
+            tests.append((t, c.body))
+        if not tests:
+            return None
+        orelse = list(tail)
+        for t, body in reversed(tests):
+            node = ast.If(test=t, body=list(body), orelse=orelse)
+            orelse = [node]
+        out = pre + orelse
+        for x in out:
+            ast.copy_location(x, st)
+            ast.fix_missing_locations(x)
+        return out
+
+    def walk(node):
+        for field in ("body", "orelse", "finalbody"):
+            stmts = getattr(node, field, None)
+            if not isinstance(stmts, list) or not stmts or not isinstance(stmts[0], ast.stmt):
+                continue
+            i = 0
+            while i < len(stmts):
+                st = stmts[i]
+                if isinstance(st, ast.Match):
+                    new = convert(st)
+                    if new is not None:
+                        stmts[i:i + 1] = new
+                        n[0] += 1
+                        continue  # re-visit the replacement (nested matches)
+                walk(st)
+                i += 1
+        if isinstance(node, ast.Try):
+            for h in node.handlers:
+                walk(h)
+        if isinstance(node, ast.Match):
+            for c in node.cases:
+                walk(c)
+
+    walk(tree)
+    return n[0]
+
+
+def normalise_walrus(tree):
+    """`if (x := E) ...:` where the assignment expression is the first thing the test evaluates is `x = E` followed by the `if` on x;
+    `while (x := E) ...: BODY` (no else) is `while True: x = E; if not (...): break; BODY`"""
+    n = [0]
+
+    def leftmost(test):
+        """the NamedExpr evaluated first, unconditionally, in test - with the parent node and field holding it"""
+        cur, hold = test, None
+        while True:
+            if isinstance(cur, ast.NamedExpr):
+                return cur, hold
+            if isinstance(cur, ast.UnaryOp):
+                hold = (cur, "operand", None)
+                cur = cur.operand
+            elif isinstance(cur, ast.BoolOp):
+                hold = (cur, "values", 0)
+                cur = cur.values[0]
+            elif isinstance(cur, ast.Compare):
+                hold = (cur, "left", None)
+                cur = cur.left
+            elif isinstance(cur, ast.Call) and isinstance(cur.func, ast.Name) and cur.args and not any(isinstance(a, ast.Starred) for a in cur.args):
+                hold = (cur, "args", 0)
+                cur = cur.args[0]
+            elif isinstance(cur, ast.Attribute):
+                hold = (cur, "value", None)
+                cur = cur.value
+            elif isinstance(cur, ast.Subscript):
+                hold = (cur, "value", None)
+                cur = cur.value
+            else:
+                return None, None
+
+    def split(test):
+        ne, hold = leftmost(test)
+        if ne is None or not isinstance(ne.target, ast.Name):
+            return None
+        assign = ast.Assign(targets=[ast.Name(id=ne.target.id, ctx=ast.Store())], value=ne.value)
+        repl = ast.Name(id=ne.target.id, ctx=ast.Load())
+        if hold is None:
+            new_test = repl
+        else:
+            par, field, idx = hold
+            if idx is None:
+                setattr(par, field, repl)
+            else:
+                getattr(par, field)[idx] = repl
+            new_test = test
+        return assign, new_test
+
+    def walk(node):
+        for field in ("body", "orelse", "finalbody"):
+            stmts = getattr(node, field, None)
+            if not isinstance(stmts, list) or not stmts or not isinstance(stmts[0], ast.stmt):
+                continue
+            i = 0
+            while i < len(stmts):
+                st = stmts[i]
+                if isinstance(st, ast.If):
+                    r = split(st.test)
+                    if r is not None:
+                        a, t = r
+                        ast.copy_location(a, st)
+                        ast.fix_missing_locations(a)
+                        st.test = t
+                        ast.fix_missing_locations(st)
+                        stmts.insert(i, a)
+                        n[0] += 1
+                        continue
+                elif isinstance(st, ast.While) and not st.orelse:
+                    r = split(st.test)
+                    if r is not None:
+                        a, t = r
+                        brk = ast.If(test=ast.UnaryOp(op=ast.Not(), operand=t), body=[ast.Break()], orelse=[])
+                        st.test = ast.Constant(value=True)
+                        st.body = [a, brk] + st.body
+                        for x in (a, brk):
+                            ast.copy_location(x, st)
+                            ast.fix_missing_locations(x)
+                        n[0] += 1
+                        continue
+                walk(st)
+                i += 1
+        if isinstance(node, ast.Try):
+            for h in node.handlers:
+                walk(h)
+
+    walk(tree)
+    return n[0]
+
+
+def normalise_suppress(tree):
+    """`with contextlib.suppress(E1, E2): BODY` is `try: BODY` / `except (E1, E2): pass` (the tool never raises exception groups)"""
+    n = [0]
+    names = set()
+    mods = set()
+    for st in ast.walk(tree):
+        if isinstance(st, ast.ImportFrom) and st.module == "contextlib":
+            for a in st.names:
+                if a.name == "suppress":
+                    names.add(a.asname or a.name)
+        elif isinstance(st, ast.Import):
+            for a in st.names:
+                if a.name == "contextlib":
+                    mods.add(a.asname or a.name)
+    if not names and not mods:
+        return 0
+
+    def is_suppress(e):
+        return isinstance(e, ast.Call) and not e.keywords and e.args and not any(isinstance(a, ast.Starred) for a in e.args) and (
+            (isinstance(e.func, ast.Name) and e.func.id in names) or (isinstance(e.func, ast.Attribute) and e.func.attr == "suppress" and isinstance(e.func.value, ast.Name) and e.func.value.id in mods))
+
+    for node in ast.walk(tree):
+        for field in ("body", "orelse", "finalbody"):
+            stmts = getattr(node, field, None)
+            if not isinstance(stmts, list) or not stmts or not isinstance(stmts[0], ast.stmt):
+                continue
+            for i, st in enumerate(list(stmts)):
+                if isinstance(st, ast.With) and len(st.items) == 1 and st.items[0].optional_vars is None and is_suppress(st.items[0].context_expr):
+                    args = st.items[0].context_expr.args
+                    typ = args[0] if len(args) == 1 else ast.Tuple(elts=list(args), ctx=ast.Load())
+                    new = ast.Try(body=st.body, handlers=[ast.ExceptHandler(type=typ, name=None, body=[ast.Pass()])], orelse=[], finalbody=[])
+                    ast.copy_location(new, st)
+                    ast.fix_missing_locations(new)
+                    stmts[stmts.index(st)] = new
+                    n[0] += 1
+    return n[0]
+
+
 def normalise_local_lambdas(tree, known):
     """a nested `def g(a, b): [del b]; return E` that is new with respect to the pinned inventory and whose name is only read in the
     enclosing function is the value `lambda a, b: E` (deleting an unused parameter has no effect); uses of g become that lambda."""
@@ -2155,7 +2388,10 @@ def normalise_program(trees):
     """trees: path -> ast.Module (mutated in place).  Returns {path: number of inlined call sites}."""
     reshaped = {}
     for path, tree in trees.items():
-        n_ = normalise_count_loops(tree)
+        n_ = normalise_match(tree)
+        n_ += normalise_walrus(tree)
+        n_ += normalise_suppress(tree)
+        n_ += normalise_count_loops(tree)
         n_ += normalise_search_loops(tree)
         n_ += normalise_reduce(tree)
         n_ += normalise_next_loops(tree)
